@@ -495,7 +495,7 @@ def shared_tag_case(rng) -> dict:
 
 
 # ---------------------------------------------------------------- entry
-GUARDS = {1: "F13a", 2: "F13b", 3: "F13c"}   # F01e is fixed
+GUARDS = {1: "F13a", 2: "F13b"}   # F01e and F13c are fixed
 
 
 def main(chk: Check, replay: dict | None = None) -> int:
